@@ -273,7 +273,7 @@ def _run(ctx):
                     typeerr = any('Binary field or prime field required' in e for e in errs)
                     ctx.case({'cfg': cfg, 'group': gname, 'failed': True}, kind='failed program')
                     if lifted_sym and typeerr:
-                        sig = 'Sym(n) over lifted GF(n) m>=n to_bits TypeError %s %s' % (gname, cfg)
+                        sig = 'Sym(n) over lifted sectype GF(p) p<=m to_bits TypeError %s %s' % (gname, cfg)
                     else:
                         sig = 'program-failed %s %s' % (gname, cfg)
                     ctx.violation(sig, {'cfg': cfg, 'group': gname, 'plan': plan, 'results': [repr(r)[:200] for r in res],
